@@ -1,5 +1,6 @@
 -------------------------- MODULE MC_GenCoordsOutX --------------------------
 (* export instance: one molecule list per state would multiply with the options; the options are enumerated for a few lists *)
 EXTENDS MC_GenCoordsOut
-XMolLists == { <<E("W", 3), E("A", 1)>>, <<E("A", 2)>>, <<E("V", 1), E("W", 1), E("V", 1)>>, <<E("A", 1), E("V", 2)>>, <<E("W", 1), E("A", 1), E("W", 1)>> }
+XMolLists == { <<E("W", 3), E("A", 1)>>, <<E("A", 2)>>, <<E("V", 1), E("W", 1), E("V", 1)>>, <<E("A", 1), E("V", 2)>>, <<E("W", 1), E("A", 1), E("W", 1)>>,
+               <<E("L", 1), E("W", 2)>>, <<E("L", 2)>> }     \* L: 8 single-atom residues RA RB RA RB ...: with -res RB built and given residues alternate
 =============================================================================
